@@ -56,6 +56,18 @@ class Ref:
         return b"".join(c.to_bytes(4, "little") for c in s).hex()
 
 
+def rare_items():
+    """items whose SHA3 has a word in [p, 2^32) (found by brute force once, kept in the corpus):
+    without them the conditional subtraction of hash_to_state is never exercised"""
+    p = os.path.join(vlib.VERIF, "corpus", "C14", "rare_items.json")
+    if not os.path.exists(p):
+        return []
+    return [bytes.fromhex(x["item"]) for x in json.load(open(p))["items"]]
+
+
+RARE = rare_items()
+
+
 def gen_case(rng, primes, stats):
     """one case: list of (impl_op, model_op) strings + the reference's expected outputs"""
     ref = Ref(primes)
@@ -65,6 +77,9 @@ def gen_case(rng, primes, stats):
     nops = rng.range(3, 24)
 
     def item():
+        if RARE and rng.chance(1, 8):
+            stats["rare_items"] += 1
+            return rng.choice(RARE)
         if pool and rng.chance(1, 3):
             return rng.choice(pool)
         k = rng.choice([0, 0, 1, 2, 3, 8, 31, 32, 33, 64, 135, 136, 137, 200])
@@ -114,11 +129,21 @@ def gen_case(rng, primes, stats):
             stats["rem"] += 1
         elif k < 50:
             key, val, ts = item(), item(), rng.choice([0, 1, 255, 256, 2**32, 2**63, 2**64 - 1, rng.below(2**64)])
-            if rng.chance(2, 3):
+            kind = rng.below(6)
+            if kind in (0, 1):
                 impl.append("put %d %s %d %s" % (r, hx(key), ts, hx(val)))
                 it = b"\x08" + key + ts.to_bytes(8, "little") + val
-            else:
+            elif kind == 2:
                 impl.append("del %d %s %d" % (r, hx(key), ts))
+                it = b"\x09" + key + ts.to_bytes(8, "little")
+            elif kind in (3, 4):
+                # through sst::Setsum::insert(KeyValueRef): a put, possibly with an EMPTY value
+                if rng.chance(1, 2):
+                    val = b""
+                impl.append("kvi %d %s %d %s" % (r, hx(key), ts, hx(val)))
+                it = b"\x08" + key + ts.to_bytes(8, "little") + val
+            else:
+                impl.append("kvi %d %s %d ~" % (r, hx(key), ts))
                 it = b"\x09" + key + ts.to_bytes(8, "little")
             model.append("ins %d %s" % (r, sha3(it).hex()))
             regs[r] = ref.add(regs[r], ref.item(it))
@@ -250,7 +275,8 @@ def load_corpus(pid):
             if fn.endswith(".json"):
                 with open(os.path.join(d, fn)) as fh:
                     c = json.load(fh)
-                cases.append((c["impl"], c["model"], c["expect"], fn))
+                if "impl" in c:
+                    cases.append((c["impl"], c["model"], c["expect"], fn))
     return cases
 
 
@@ -269,7 +295,7 @@ def run(chk):
         raise RuntimeError("harness build failed (does /repo still compile?):\n" + outh[-3000:])
 
     rng = vlib.Rng(chk.seed * 1000003 + 14)
-    stats = {k: 0 for k in ["ins", "insv", "rem", "kv", "add", "sub", "fd", "fd_noncanonical", "fh", "fh_none", "out"]}
+    stats = {k: 0 for k in ["ins", "insv", "rem", "kv", "add", "sub", "fd", "fd_noncanonical", "fh", "fh_none", "out", "rare_items"]}
     n = 4000 if chk.tier == "quick" else 120000
     cases = [(i, m, e, "corpus:" + fn) for i, m, e, fn in load_corpus("C14")]
     ncorpus = len(cases)
